@@ -12,6 +12,7 @@ import traceback
 sys.path.insert(0, os.path.dirname(os.path.abspath(__file__)))
 from common import *  # noqa
 from libsum import NoLivePath
+from symeng import SelfRecursion
 
 LEVELS = {}
 
@@ -36,6 +37,12 @@ def main():
         print("replaying %s %s on the current tree" % chk.replay_key)
     try:
         return mod.run(chk, tier)
+    except SelfRecursion as e:
+        fn = e.fn
+        chk.violation("E2.recursion", "recursion:" + (fn.get("base") or fn.get("qn", "?"))[:120], "%s:%s" % (rel(fn.get("file", "?")), fn.get("line")),
+                      "%s calls itself unconditionally (the same instantiation is re-entered on every path): the operation never "
+                      "returns" % fn.get("qn", "?")[:200])
+        return chk.finish(explanation="aborted at a self-recursive function; rules evaluated before it are listed", rule_text="partial run")
     except NoLivePath as e:
         # a row wanted the normal-completion path of a function and there is none: with valid arguments the operation
         # always ends in the assertion handler
